@@ -94,7 +94,7 @@ CHECKS = {
         "explicit-state breadth-first search over call histories of real objects (all event sequences up to a depth bound, "
         "states de-duplicated on a structural hash of object graph + model + module globals), every transition compared "
         "with a constructor-built pristine reference",
-        "All histories up to the depth bound over 45 worlds (detectors, scorers, shared scorers and wrappers, two instances per class, "
+        "All histories up to the depth bound over 47 worlds (detectors, scorers, shared scorers and wrappers, two instances per class, two narrow deep worlds, "
         "nested set_params, clone, update, a caller-mutated buffer, a call that fails half-way) are executed on the implementation; each "
         "transition is an implementation execution validated against the boring reference model (hyper-parameters, last fit data, "
         "fitted flag); event chains without intermediate state copies re-examine results the caller still holds.",
